@@ -92,6 +92,31 @@ type wkStatus struct {
 	ObservedGeneration int    `json:"observedGeneration"`
 	UpdateRevision     string `json:"updateRevision"`
 	StableRevision     string `json:"stableRevision"`
+	// harness only (unstructured workloads): "update" | "stable" | "both" — status.updateRevision / currentRevision carry a
+	// value of another JSON type (NonStringKind 0 number, 1 bool, 2 object).  ParseWorkloadStatus reads such a field as
+	// absent, so the abstract revision above is "" (wkNormStatus).
+	NonString     string `json:"nonString,omitempty"`
+	NonStringKind int    `json:"nonStringKind,omitempty"`
+}
+
+func wkNonStringValue(kind int) interface{} {
+	switch kind % 3 {
+	case 0:
+		return int64(7)
+	case 1:
+		return true
+	}
+	return map[string]interface{}{"x": "y"}
+}
+
+// wkNormStatus: the abstract view of a status with non-string revision fields
+func wkNormStatus(st *wkStatus) {
+	if st.NonString == "update" || st.NonString == "both" {
+		st.UpdateRevision = ""
+	}
+	if st.NonString == "stable" || st.NonString == "both" {
+		st.StableRevision = ""
+	}
 }
 
 type wkWl struct {
@@ -597,6 +622,12 @@ func wkBuildWorkload(ty string, gvk *wkGVK, ns, name, rv string, generation int,
 		"updatedReplicas": int64(st.Updated), "updatedReadyReplicas": int64(st.UpdatedReady), "observedGeneration": int64(st.ObservedGeneration),
 		"updateRevision": st.UpdateRevision, "currentRevision": st.StableRevision,
 	}
+	if st.NonString == "update" || st.NonString == "both" {
+		u.Object["status"].(map[string]interface{})["updateRevision"] = wkNonStringValue(st.NonStringKind)
+	}
+	if st.NonString == "stable" || st.NonString == "both" {
+		u.Object["status"].(map[string]interface{})["currentRevision"] = wkNonStringValue(st.NonStringKind)
+	}
 	return u
 }
 
@@ -816,8 +847,18 @@ func wkGenStatus(c *Ctx) wkStatus {
 
 func wkGenWl(c *Ctx) *wkWl {
 	ty := pickS(c, wkTypes...)
-	return &wkWl{Ty: ty, GVK: wkGenGVKFor(c, ty), NS: pickS(c, wkNamespaces...), Name: pickS(c, wkWlNames...), RV: fmt.Sprint(10 + c.Rng.Intn(3)),
+	w := &wkWl{Ty: ty, GVK: wkGenGVKFor(c, ty), NS: pickS(c, wkNamespaces...), Name: pickS(c, wkWlNames...), RV: fmt.Sprint(10 + c.Rng.Intn(3)),
 		Generation: 1 + c.Rng.Intn(3), Status: wkGenStatus(c), Control: wkGenControl(c)}
+	if ty == "Unstructured" && c.Rng.Intn(4) == 0 {
+		wkGenNonString(c, &w.Status)
+	}
+	return w
+}
+
+// a custom resource whose CRD does not pin the type of status.updateRevision / currentRevision
+func wkGenNonString(c *Ctx, st *wkStatus) {
+	st.NonString, st.NonStringKind = pickS(c, "update", "stable", "both"), c.Rng.Intn(3)
+	wkNormStatus(st)
 }
 
 // a successor of a workload object: one kind of change (or none)
@@ -862,6 +903,17 @@ func wkMutateWl(c *Ctx, o *wkWl) (*wkWl, string) {
 	if c.Rng.Intn(10) == 0 {
 		n.Control = wkGenControl(c)
 	}
+	if n.Ty == "Unstructured" && c.Rng.Intn(6) == 0 {
+		// the successor's revision fields change their JSON type (or go back to strings)
+		if n.Status.NonString == "" {
+			wkGenNonString(c, &n.Status)
+		} else {
+			n.Status.NonString, n.Status.NonStringKind = "", 0
+			n.Status.UpdateRevision, n.Status.StableRevision = pickS(c, "v1", "v2"), pickS(c, "v1", "v2", "")
+		}
+		what = what + "+revision-type"
+	}
+	wkNormStatus(&n.Status) // a revision field of another JSON type stays "" in the abstract view whatever was appended above
 	return &n, what
 }
 
